@@ -4,6 +4,7 @@
 pub fn dispatch(cmd: &str, args: &[String]) -> Option<i32> {
     match cmd {
         "provider" => Some(crate::provider::standalone(args)),
+        "fakeauth" => Some(crate::c20::fakeauth::standalone(args)),
         _ => None,
     }
 }
